@@ -206,12 +206,12 @@ def wait_probe(att, start, limit=40.0):
     return "timeout"
 
 
-def run_case(ctx, sess, ptype, kind, payload, named):
+def run_case(ctx, sess, ptype, kind, payload, named, interleave=True):
     att = sess.att
     v = att.victim
     # IGNORE messages are never answered: they desynchronise the victim's inbound and outbound
     # sequence counters so a reply quoting the wrong counter cannot match by coincidence
-    if ctx.rng.random() < 0.4:
+    if interleave and ctx.rng.random() < 0.4:
         try:
             for _ in range(ctx.rng.randint(1, 3)):
                 att.send(2, ctx.rng.randbytes(ctx.rng.randint(0, 12)))
@@ -260,6 +260,19 @@ def run_case(ctx, sess, ptype, kind, payload, named):
     mine_out = [e for e in att.rec.snapshot() if e.get("kind") == "msg" and e["side"] == "a" and e["dir"] == "out"
                 and e["n"] >= mark and e["type"] == ptype and e["payload"] == bytes([ptype]) + payload]
     seq_in = sender_seq(att.rec, mine_out[0]["n"], negotiated_strict(att.rec, sess.role)) if mine_out else None
+    base = getattr(sess, "seq_base", None)
+    if base is not None and mine_out:
+        # the harness moved both packet counters to `preset` at event n0: count the attacker's packets from there
+        n0, preset = base
+        k = len([e for e in att.rec.snapshot() if e.get("kind") == "msg" and e["side"] == "a" and e["dir"] == "out"
+                 and n0 <= e["n"] < mine_out[0]["n"]])
+        seq_in = (preset + k) & 0xFFFFFFFF
+        if getattr(sess, "seq_target", None) is not None:
+            if seq_in != sess.seq_target:
+                ctx.inconclusive("sequence preset missed its target (%#x instead of %#x)" % (seq_in, sess.seq_target))
+                sess.dead = True
+                return
+            ctx.count("seqno_boundary_%#010x_cases" % seq_in)
     if seq_in is None:
         ctx.inconclusive("could not locate the crafted packet in the attacker's tap")
         sess.dead = True
@@ -307,6 +320,8 @@ def run_case(ctx, sess, ptype, kind, payload, named):
         return
     body = unimpl[0]["payload"]
     ctx.count("reply_seqno_compared")
+    if getattr(sess, "seq_target", None) is not None:
+        ctx.count("seqno_boundary_%#010x_compared" % seq_in)
     if sess.cell:
         ctx.count("cell_%s_seq_compared" % sess.cell)
     if len(body) != 5 or struct.unpack(">I", body[1:5])[0] != seq_in:
@@ -672,7 +687,8 @@ def run_debug_and_kexrange(ctx):
     for role in ("client", "server"):
         for ci, cfg in enumerate(("hexdump", "logchannel_debug", "hexdump_logchannel_debug")):
             # quick: every type under one of the three configurations (rotated by seed); thorough: under all three
-            types = [t for t in range(256) if not ctx.quick or (t + ctx.seed) % 3 == ci]
+            types = [t for t in range(256) if not ctx.quick or ((t + ctx.seed) % 3 == ci
+                                                                and ((t // 3) % 2 == 0) == (role == "client"))]
             jobs.append(("debugcfg_" + cfg, role, types, cfg, False))
         for phase in ("before", "after"):
             jobs.append(("kexrange_%s_rekey" % phase, role, list(range(30, 50)), None, phase == "after"))
@@ -712,6 +728,80 @@ def run_debug_and_kexrange(ctx):
         run_type_sweep(ctx, label, role, mine, setup=setup if cfg else None, after_rekey=after)
         if fmt.get("h") is not None:
             ctx.count("debug_log_records_rendered", fmt["h"].n)
+
+
+SEQ_BOUNDARIES = (0xFFFF, 0x7FFFFFFF, 0x80000000, 0xFEFFFFFF, 0xFF000000, 0xFF000001, 0xFFFFFFFE, 0xFFFFFFFF, 0, 1)
+
+
+def preset_counters(ctx, sess, value):
+    """On a quiescent connection move the attacker's outbound and the victim's inbound packet counter together
+    (what a long-lived connection reaches by itself). Both ends stay consistent, so MACs keep verifying."""
+    att = sess.att
+    if wait_probe(att, att.inbox_mark()) != "alive":
+        return False
+    v = att.victim
+    if v.in_kex or att.att.in_kex:
+        return False
+    n0 = att.mark()
+    att.att.packetizer._Packetizer__sequence_number_out = value & 0xFFFFFFFF
+    v.packetizer._Packetizer__sequence_number_in = value & 0xFFFFFFFF
+    sess.seq_base = (n0, value & 0xFFFFFFFF)
+    return True
+
+
+def run_seqno_boundaries(ctx):
+    """Sequence numbers across the uint32 range (and across the wrap) in the UNIMPLEMENTED reply."""
+    import paramiko.common as pc
+
+    cells = [(role, fam, strict) for role in ("client", "server") for fam in ("ctr", "gcm", "cbc")
+             for strict in (False, True) if not (fam == "cbc" and strict)]
+    for i, (role, fam, strict) in enumerate(cells):
+        if not ctx.mine(i + 5):
+            continue
+        if time.time() > ctx.deadline(230, 1380):
+            ctx.count("cases_not_run_time_cap")
+            return
+        sess = None
+        for attempt in range(3):
+            cand = Session(ctx, role, family=fam, strict=strict)
+            if cand.ok:
+                sess = cand
+                break
+            cand.close()
+        if sess is None:
+            ctx.inconclusive("seqno stratum: handshake failed three times")
+            continue
+        try:
+            v = sess.att.victim
+            sess.cell = "seqno_%s_%s" % (fam, "strict" if strict else "nonstrict")
+            for target in SEQ_BOUNDARIES:
+                for rep in range(ctx.pick(1, 3)):
+                    if not sess.usable():
+                        break
+                    pad = ctx.rng.randint(0, 3)
+                    if not preset_counters(ctx, sess, (target - pad) & 0xFFFFFFFF):
+                        ctx.inconclusive("seqno stratum: connection not quiescent/alive before the preset")
+                        sess.dead = True
+                        break
+                    for _ in range(pad):
+                        sess.att.send(2, ctx.rng.randbytes(ctx.rng.randint(0, 6)))
+                    sess.seq_target = target
+                    cand_types = sorted(t for t in range(256) if judged_unhandled(ctx, v, "server" if role == "client" else "client", t)
+                                        and t != MSG_UNIMPLEMENTED)
+                    ptype = ctx.rng.choice(cand_types)
+                    kind = ctx.rng.choice(PAYLOAD_KINDS)
+                    payload = make_payload(ctx.rng, ptype, kind, False)
+                    ctx.case(("c12-seqno", role, fam, strict, target, ptype, kind, payload),
+                             sample=dict(stratum="sequence number boundary", seqno="%#010x" % target, cipher=v.local_cipher,
+                                         strict_kex=strict, type=ptype) if target == 0xFF000000 and role == "client" else None)
+                    run_case(ctx, sess, ptype, kind, payload, ptype in pc.MSG_NAMES, interleave=False)
+                    sess.seq_target = None
+        except Exception:
+            import traceback
+
+            ctx.inconclusive("harness error in seqno stratum: " + traceback.format_exc()[-600:])
+        finally:
+            sess.close()
 
 
 def run_rekey_stratum(ctx):
@@ -801,9 +891,14 @@ def run(ctx):
     run_rekey_stratum(ctx)
     run_cipher_cells(ctx)
     run_debug_and_kexrange(ctx)
+    run_seqno_boundaries(ctx)
+    for b in SEQ_BOUNDARIES:
+        ctx.require("seqno_boundary_%#010x_compared" % b, 6)
+    for fam, st in (("ctr", "nonstrict"), ("gcm", "nonstrict"), ("cbc", "nonstrict"), ("ctr", "strict"), ("gcm", "strict")):
+        ctx.require("cell_seqno_%s_%s_seq_compared" % (fam, st), 12)
     for cfg in ("hexdump", "logchannel_debug", "hexdump_logchannel_debug"):
-        ctx.require("cell_debugcfg_%s_seq_compared" % cfg, 120 if ctx.quick else 380)
-    ctx.require("debug_log_records_rendered", 600)
+        ctx.require("cell_debugcfg_%s_seq_compared" % cfg, 55 if ctx.quick else 380)
+    ctx.require("debug_log_records_rendered", 400)
     for ph in ("before", "after"):
         ctx.require("cell_kexrange_%s_rekey_seq_compared" % ph, 36)
     ctx.require("kexrange_after_rekey_rekeys_completed", 2)
